@@ -276,7 +276,7 @@ pub fn run(ctx: &Ctx) -> PropResult {
     }
     // trees: the compact interface and every random interface (a third of them
     // are built from a 3-5 mnemonic vocabulary, depth up to 4)
-    let mut all: Vec<&'static IfaceDesc> = vec![ctx.iface("mini")];
+    let mut all: Vec<&'static IfaceDesc> = ctx.built(&["mini"]);
     all.extend(ctx.random_ifaces());
     // how many trees have one mnemonic at more than one level?
     let multi_level = all
